@@ -596,7 +596,10 @@ class Check:
             "violations": len(self.violations),
         }
         os.makedirs(os.path.join(VERIF, "evidence"), exist_ok=True)
-        with open(os.path.join(VERIF, "evidence", self.pid + ".json"), "w") as f:
+        # evidence/<ID>.json only ever describes a run against /repo itself; experiments against a scratch
+        # worktree (TBX_REPO) leave their record in the run directory
+        ev_path = os.path.join(VERIF, "evidence", self.pid + ".json") if REPO == "/repo" else os.path.join(self.rundir, "evidence.json")
+        with open(ev_path, "w") as f:
             json.dump(ev, f, indent=1)
         # ---- report
         print(f"{self.pid} tier={self.tier} seed={self.seed}: theorems {discharged}/{obligations} proved; "
